@@ -442,7 +442,7 @@ func C09(tier string) int {
 	rep := report.New("C09", tier, "model_checking")
 	thorough := tier != "quick"
 	rep.Assume("corruptions are raw bucket edits of the supported classes on three base states built through the API; clean-state soundness is checked on every reachable state of the kitchen-sink exploration")
-	rep.Set("rule", "(a) BFS over the kitchen-sink schema: on every reachable state check-only and fix runs must report nothing and change nothing; (b) 3 base states x ALL subsets of size <= 2 (thorough: 3) of 27 corruption atoms, applied in an earlier transaction and (thorough) in the same transaction as the fix: check-only reports every item of an independent reference diff and leaves the file unchanged; fix repairs to the reference-repaired image; re-check reports only the unfixable conflicts")
+	rep.Set("rule", "(a) BFS over the kitchen-sink schema: on every reachable state check-only and fix runs must report nothing and change nothing; (b) 3 base states x ALL subsets of size <= 2 (thorough: 3) of 27 corruption atoms, applied in an earlier transaction and in the same transaction as the fix: check-only reports every item of an independent reference diff and leaves the file unchanged; fix repairs to the reference-repaired image; re-check reports only the unfixable conflicts")
 
 	// ---- (a) soundness on healthy reachable states
 	k := newKitchen("integrity soundness", kFeat{orgs: true, places: true, pets: true, rc: true, maxCount: 1})
@@ -559,9 +559,7 @@ func C09(tier string) int {
 	for bi := range c09Bases() {
 		for _, s := range subsets {
 			jobs <- job{bi, s, false}
-			if thorough || len(s) <= 1 {
-				jobs <- job{bi, s, true}
-			}
+			jobs <- job{bi, s, true}
 		}
 	}
 	close(jobs)
